@@ -173,10 +173,10 @@ class HttpParser:
                 # We only work with gzip, for any other encoding
                 # type, remove the original header
                 self.del_header(b'content-encoding')
-        # If the request is of type chunked encoding
-        # add post data as chunk
+        # If the request is of type chunked encoding,
+        # body is kept decoded here like after parsing
+        # and is chunked (once) when the packet is built.
         if self.is_chunked_encoded:
-            body = ChunkParser.to_chunks(body)
             self.del_header(b'content-length')
         else:
             self.add_header(
